@@ -19,7 +19,22 @@ MAINF = "PROGRAM MAIN\n  VAR_EXTERNAL\n    gv : INT;\n  END_VAR\n  VAR\n    u : 
 CFG = ("CONFIGURATION CFG\n  VAR_GLOBAL\n    gv : INT := 1;\n  END_VAR\n  RESOURCE RES ON PLC\n    TASK T1 (INTERVAL := T#100ms, PRIORITY := 1);\n"
        "    PROGRAM I1 WITH T1 : MAIN;\n  END_RESOURCE\nEND_CONFIGURATION\n")
 
+SUBR = "TYPE\n  RNG : INT (1..10);\nEND_TYPE\n"
+ARRT = "TYPE\n  ARR : ARRAY [1..4] OF INT;\nEND_TYPE\n"
+STRT = "TYPE\n  STR10 : STRING[10];\nEND_TYPE\n"
+SINIT = "TYPE\n  PT2 : PT := (x := 1);\nEND_TYPE\n"
+LATEB = "TYPE\n  LVL3 : LVL;\nEND_TYPE\n"
+SUBR_AS_LVL = "TYPE\n  LVL : INT (1..10);\nEND_TYPE\n"
+FB_AS_LVL = "FUNCTION_BLOCK LVL\n  VAR\n    x : INT;\n  END_VAR\n  x := 1;\nEND_FUNCTION_BLOCK\n"
+
 KINDS = {
+    "R": ("RNG", [], SUBR),
+    "AR": ("ARR", [], ARRT),
+    "ST": ("STR10", [], STRT),
+    "SI": ("PT2", ["PT"], SINIT),
+    "LB": ("LVL3", ["LVL"], LATEB),
+    "RX": ("LVL", [], SUBR_AS_LVL),
+    "CX": ("LVL", [], FB_AS_LVL),
     "E": ("LVL", [], ENUM),
     "E2": ("LVL2", ["LVL"], ALIAS),
     "S": ("PT", ["LVL"], STRUCT),
@@ -33,6 +48,7 @@ KINDS = {
 
 # context-free rule violations (the documented 'Fails' shapes), per declaration kind: (text, code, lexeme the label must name)
 RULE_FAULT = {
+    "R": (SUBR.replace("1..10", "10..1"), "P0004", "10"),
     "E": (ENUM.replace("(LO, MID, HI)", "(LO, MID, HI, LO)"), "P0005", "LO"),
     "E2": (ALIAS.replace(":= MID", ":= NOPE"), "P0014", "NOPE"),
     "S": (STRUCT.replace("    l : LVL := HI;\n", "    x : BOOL;\n"), "P0003", "x"),
@@ -45,6 +61,14 @@ RULE_FAULT = {
 }
 # a second, different declaration with the same name (duplicate-name scenarios)
 DUP_BODY = {
+    "R": SUBR.replace("1..10", "2..9"),
+    "R!": SUBR.replace("1..10", "10..1"),                      # the duplicate also has its limits in the wrong order
+    "AR": ARRT.replace("1..4", "1..5"),
+    "ST": STRT.replace("[10]", "[20]"),
+    "SI": SINIT.replace("x := 1", "x := 2"),
+    "LB": LATEB,
+    "S": STRUCT.replace("    x : INT;\n", "    x : INT;\n    y : INT;\n"),
+    "E2": ALIAS.replace(":= MID", ":= HI"),
     "E": "TYPE\n  LVL : (LO, MID, HI, TOP) := LO;\nEND_TYPE\n",
     "C": CALLEE.replace("out1 := in1 + k;", "out1 := in1;"),
     "U": USER.replace("a := a + 1;", "a := a + 2;"),
@@ -88,6 +112,13 @@ def scenarios():
             sc["%s_%s" % (f, k)] = [(x, f if x == k else "none") for x in base]
     for k in ("E", "C", "U", "U!"):
         sc["dup_%s" % k.replace("!", "x")] = [(x, "none") for x in ["E", "E2", "C", "U"]] + [(k.rstrip("!"), "dup:" + k)]
+    # a duplicate of every kind of declaration the sort handles separately, and duplicates across kinds
+    for k, base in (("R", ["E", "C", "R"]), ("R!", ["E", "C", "R"]), ("AR", ["E", "C", "AR"]), ("ST", ["E", "C", "ST"]),
+                    ("SI", ["E", "S", "SI"]), ("LB", ["E", "LB", "C"]), ("S", ["E", "S", "C"]), ("E2", ["E", "E2", "C"])):
+        sc["dupk_%s" % k.replace("!", "x")] = [(x, "none") for x in base] + [(k.rstrip("!"), "dup:" + k)]
+    sc["cross_RX"] = [(x, "none") for x in ["E", "C", "RX"]]
+    sc["cross_CX"] = [(x, "none") for x in ["E", "C", "CX"]]
+    sc["rule_R"] = [("E", "none"), ("C", "none"), ("R", "rule")]
     sc["missing_E"] = [(x, "none") for x in ["E2", "C", "U", "M"]]
     sc["missing_C"] = [(x, "none") for x in ["E", "E2", "U", "M"]]
     sc["valid4"] = [(x, "none") for x in ["E", "E2", "C", "U"]]
